@@ -57,8 +57,10 @@ void StatementBuilder::collectDependencies(std::set<symbol_t>& dependencies, exp
         if (dependencies.find(s) == dependencies.end()) {
             dependencies.insert(s);
             if (auto d = s.get_data(); d) {
-                if (auto t = s.get_type(); !(t.is_function() || t.is_function_external())) {
-                    // assume is its variable, which is not always true
+                if (auto t = s.get_type();
+                    !(t.is_function() || t.is_function_external() || t.is(INSTANCE) || t.is(LSC_INSTANCE) || t.is_process() ||
+                      t.is_process_set() || t.is_location() || t.is_branchpoint() || t.is_instance_line() || t.is(TYPEDEF))) {
+                    // the user data of everything else is a variable_t
                     variable_t* v = static_cast<variable_t*>(d);
                     v->init.collect_possible_reads(symbols);
                 } else {
